@@ -35,8 +35,19 @@ type MessageHeartbeat struct {
 // GetID implements message.Message.
 func (*MessageHeartbeat) GetID() uint32 { return 0 }
 
+// MessageNamedValueInt has the name, the id AND the number of fields of the shipped NAMED_VALUE_INT (a later revision of
+// the definition: the name is 16 characters long instead of 10).
+type MessageNamedValueInt struct {
+	TimeBootMs uint32
+	Value      int32
+	Name       string `mavlen:"16"`
+}
+
+// GetID implements message.Message.
+func (*MessageNamedValueInt) GetID() uint32 { return 252 }
+
 // Good lists the well-formed namesakes.
-var Good = []message.Message{&MessageSysStatus{}, &MessageAttitude{}}
+var Good = []message.Message{&MessageSysStatus{}, &MessageAttitude{}, &MessageNamedValueInt{}}
 
 // Dialect is the in-house dialect.
 var Dialect = &dialect.Dialect{Version: 3, Messages: Good}
